@@ -608,6 +608,22 @@ func (s *Sim) opBuy() {
 	s.doBuy(cr, c, vrandPick(s, s.Plans), months, s.R.Intn(4) == 0, s.R.Intn(4) == 0)
 }
 
+// opBuyAdvanceReplace replaces an existing advance purchase by a more expensive one (only the difference is charged).
+func (s *Sim) opBuyAdvanceReplace() {
+	for _, c := range s.Cons {
+		sub, found := s.TS.Keepers.Subscription.GetSubscription(s.TS.Ctx, c.Addr)
+		if !found || sub.FutureSubscription == nil {
+			continue
+		}
+		months := int(sub.FutureSubscription.DurationBought) + 1 + s.R.Intn(3)
+		s.doBuy(c, c, "prem", months, false, true)
+		return
+	}
+	// nobody has an advance purchase yet: make one
+	c := s.Cons[s.R.Intn(len(s.Cons))]
+	s.doBuy(c, c, vrandPick(s, s.Plans), 1, false, true)
+}
+
 func (s *Sim) opAutoRenew() {
 	c := s.Cons[s.R.Intn(len(s.Cons))]
 	msg := &subscriptiontypes.MsgAutoRenewal{Creator: c.Addr, Consumer: c.Addr, Enable: s.R.Intn(2) == 0, Index: vrandPick(s, s.Plans)}
@@ -1054,7 +1070,7 @@ func (s *Sim) baseOpTable() []opEntry {
 		{"ds_delegate", s.opDsDelegate}, {"ds_redelegate", s.opDsRedelegate}, {"ds_unbond", s.opDsUnbond}, {"ds_claim", s.opDsClaim},
 		{"st_delegate", s.opStDelegate}, {"st_undelegate", s.opStUndelegate}, {"st_redelegate", s.opStRedelegate}, {"st_cancel", s.opStCancel},
 		{"slash", s.opSlash},
-		{"buy", s.opBuy}, {"autorenew", s.opAutoRenew}, {"addproject", s.opAddProject}, {"delproject", s.opDelProject},
+		{"buy", s.opBuy}, {"buy_adv_replace", s.opBuyAdvanceReplace}, {"autorenew", s.opAutoRenew}, {"addproject", s.opAddProject}, {"delproject", s.opDelProject},
 		{"addkeys", func() { s.opKeys(false) }}, {"delkeys", func() { s.opKeys(true) }},
 		{"setpolicy", func() { s.opSetPolicy(false) }}, {"setsubpolicy", func() { s.opSetPolicy(true) }},
 		{"plan_add", s.opPlanAdd}, {"plan_del", s.opPlanDel}, {"param", s.opParam}, {"iprpc_data", s.opIprpcData}, {"fund_iprpc", s.opFundIprpc},
